@@ -51,6 +51,11 @@ def _texts(tier):
     # date-time to date-time with hour-only clocks (minute missing on one or both sides)
     ho = ["tomorrow 5 o'clock", "tomorrow 5:30", "13.2.2020 17 uhr", "13.2.2020 17:45", "13.2.2020 17h", "heute 8 uhr"]
     k2 += [a + " - " + b for a in ho for b in ho]
+    # chains of three numbers whose middle number belongs to two overlapping matches of the same pattern (5/6 and 6/7)
+    for sep in "/-:.":
+        for tri in ((5, 6, 7), (1, 2, 3), (10, 11, 12), (9, 10, 11), (12, 15, 30), (8, 5, 18)):
+            k2.append(sep.join(str(x) for x in tri))
+            k2.append("tomorrow " + sep.join(str(x) for x in tri))
     return corp, k1, list(dict.fromkeys(k2))
 
 
